@@ -232,6 +232,7 @@ func genSrvScenario(rng *rand.Rand, cfg string) string {
 }
 
 var srvTemplates = []string{
+	"- c1;c2;s1.4;g2.9;h2.9;f1;q1.5;q2.6",
 	"- c1;m1.100;g1.7;h1.7;q1.8;c2;w2.9;w1.10",
 	"- c1;he1.4;q1.5;he1.7;c2;he2.8;q1.9;sh;j",
 	"1 ch1;xh;ra",
@@ -278,6 +279,7 @@ var srvTemplatesC15 = []string{
 	"- c1;m1.100;q1.7;c2;m2.200;q1.8;m1.300;d1;q2.9",
 	"- c1;m1.100;g1.7;h1.7;q1.8;c2;w2.9;w1.10",
 	"- c1;he1.4;q1.5;he1.7;c2;he2.8;q1.9;sh;j",
+	"- c1;c2;s1.4;g2.9;h2.9;f1;q1.5;q2.6",
 }
 
 func init() {
